@@ -424,12 +424,13 @@ theorem C06_converse_composeinfo (m : ComposeInfoM) (h : ∀ p ∈ m.parts, p.Co
     · exact absurd hr (by unfold vstep; split <;> simp)
     · exact hw r hr
 
-/-- treeinfo: all written parts conform and none of the writer's own failure sources fires — there is at least one variant
-(`variants[0]` in `General.serialize`; with `main_variant=None`, the only way `dumps()` calls it, the key exists), every
+/-- treeinfo: all written parts conform and none of the writer's own failure sources fires — `General.serialize` succeeds
+(`generalOk`: the build timestamp is a FINITE number — `int(inf)`/`int(nan)` raise, finding F35 — and there is at least one variant,
+`variants[0]`, F12; with `main_variant=None`, the only way `dumps()` calls it, the key exists), every
 variant's uid is a string (`"variant-" + self.uid`), a written `[media]` section has both numbers (`int(None)`) — then the
 dump succeeds.  (Unvalidated attributes the INI writer needs as strings — variant names, path tables, platforms — are the
 well-typed skeleton, not part of the model.) -/
-theorem C06_converse_treeinfo (m : TreeInfoM) (h : ∀ p ∈ m.parts, p.Conforms) (hv : m.variants.isEmpty = false)
+theorem C06_converse_treeinfo (m : TreeInfoM) (h : ∀ p ∈ m.parts, p.Conforms) (hv : m.generalOk = .ok ())
     (hu : ∀ o ∈ m.flat, isStr (o.get c!"uid") = true)
     (hm : m.hasMedia = true → pyIntOk (m.media.get c!"discnum") = .ok () ∧ pyIntOk (m.media.get c!"totaldiscs") = .ok ()) :
     m.dumps = .ok () := by
@@ -504,7 +505,7 @@ theorem C06_converse_treeinfo (m : TreeInfoM) (h : ∀ p ∈ m.parts, p.Conforms
       · cases hr
     · simp only [List.mem_cons, List.not_mem_nil, or_false, Step.check.injEq] at hr
       subst hr
-      simp [hv]
+      exact hv
 
 /-! ## C06, error class: every failure of the walk is TypeError or ValueError -/
 
@@ -673,11 +674,12 @@ theorem composeinfo_inDomain (m : ComposeInfoM)
         have h5 : (Spec.cVariantKeys == Spec.cTiImagePaths) = false := by decide
         simp [nameDomain, h1, h2, h3, h4, h5]
 
-/-- treeinfo: ANY failure of the dump is TypeError or ValueError — or the IndexError of a tree without variants (F12) — for
-objects whose validated parts are in the model's domain (scalar parent uids; checksum and platform tables that are dicts) -/
+/-- treeinfo: ANY failure of the dump is TypeError or ValueError — or a failure of `General.serialize` (`C06_general_failures`:
+IndexError of a tree without variants, F12; a non-finite float build timestamp, F35) — for objects whose validated parts are in
+the model's domain (scalar parent uids; checksum and platform tables that are dicts) -/
 theorem C06_errclass_treeinfo (m : TreeInfoM) (hd : StepsInDomain m.steps) (e : Err) (h : m.dumps = .error e) :
-    e = .typeError ∨ e = .valueError ∨ (e = .indexError ∧ m.variants = []) := by
-  have hc : CheckIn (fun e => TV e ∨ (e = .indexError ∧ m.variants = [])) m.steps := by
+    e = .typeError ∨ e = .valueError ∨ (m.generalOk = .error e) := by
+  have hc : CheckIn (fun e => TV e ∨ m.generalOk = .error e) m.steps := by
     unfold TreeInfoM.steps
     refine checkIn_append (checkIn_append (checkIn_append (checkIn_append (checkIn_append (checkIn_append (checkIn_append (checkIn_append
       (checkIn_append (checkIn_append (checkIn_append (checkIn_vstep _ _ _ _) (checkIn_vstep _ _ _ _)) (checkIn_vstep _ _ _ _))
@@ -690,22 +692,45 @@ theorem C06_errclass_treeinfo (m : TreeInfoM) (hd : StepsInDomain m.steps) (e : 
       · cases he
       · exact Or.inl (Or.inl (by cases he; rfl))
     · refine checkIn_ite _ _ (checkIn_append (checkIn_vstep _ _ _ _) ?_) (checkIn_nil _)
-      have h1 : CheckIn (fun e => TV e ∨ (e = .indexError ∧ m.variants = [])) [Step.check (pyIntOk (m.media.get c!"discnum"))] :=
+      have h1 : CheckIn (fun e => TV e ∨ m.generalOk = .error e) [Step.check (pyIntOk (m.media.get c!"discnum"))] :=
         checkIn_single _ _ fun e he => Or.inl (Or.inl (pyIntOk_tv _ e he))
-      have h2 : CheckIn (fun e => TV e ∨ (e = .indexError ∧ m.variants = [])) [Step.check (pyIntOk (m.media.get c!"totaldiscs"))] :=
+      have h2 : CheckIn (fun e => TV e ∨ m.generalOk = .error e) [Step.check (pyIntOk (m.media.get c!"totaldiscs"))] :=
         checkIn_single _ _ fun e he => Or.inl (Or.inl (pyIntOk_tv _ e he))
       exact checkIn_append h1 h2
-    · refine checkIn_single _ _ fun e he => ?_
-      split at he
-      · rename_i hemp
-        exact Or.inr ⟨by cases he; rfl, by simpa using hemp⟩
-      · cases he
+    · exact checkIn_single _ _ fun e he => Or.inr he
   rcases errclass_of_steps _ m.steps hc hd e h with (h1 | h1) | ((h1 | h1) | h1)
   · exact Or.inl h1
   · exact Or.inr (Or.inl h1)
   · exact Or.inl h1
   · exact Or.inr (Or.inl h1)
   · exact Or.inr (Or.inr h1)
+
+/-- the failures of `General.serialize`, exactly: IndexError iff there is no variant (F12), and for a build timestamp that is a
+float `nan` ValueError, `inf` OverflowError (`Err.other`) (F35) -/
+theorem C06_general_failures (m : TreeInfoM) (e : Err) (h : m.generalOk = .error e) :
+    (e = .indexError ∧ m.variants = []) ∨ ((e = .valueError ∨ e = .other) ∧ ∃ r, m.tree.get c!"build_timestamp" = .float r) := by
+  unfold TreeInfoM.generalOk at h
+  cases hn : nonFinite (m.tree.get c!"build_timestamp") with
+  | some e' =>
+    simp only [hn] at h
+    cases h
+    right
+    unfold nonFinite at hn
+    split at hn
+    · rename_i r hr
+      refine ⟨?_, r, hr⟩
+      split at hn
+      · cases hn; exact Or.inl rfl
+      · split at hn
+        · cases hn; exact Or.inr rfl
+        · cases hn
+    · cases hn
+  | none =>
+    simp only [hn] at h
+    split at h
+    · rename_i hemp
+      cases h; exact Or.inl ⟨rfl, by simpa using hemp⟩
+    · cases h
 
 /-! ## F19: the witness (replayed on the real code by the harness) -/
 
